@@ -3,6 +3,7 @@
 package c08
 
 import (
+	"errors"
 	"context"
 	"fmt"
 	ebuotel "github.com/jilio/ebu/otel"
@@ -45,7 +46,7 @@ type H struct {
 }
 
 type Pub struct {
-	Mode  string `json:"mode"` // plain (Publish), values, cancelled
+	Mode  string `json:"mode"` // plain (Publish), values, cancelled, expired (a deadline in the past: Err() is DeadlineExceeded)
 	NVals int    `json:"nvals,omitempty"`
 	// Foreign: the publish context is not one of the standard library's
 	// context types but an implementation of its own (own Done channel and
@@ -53,7 +54,14 @@ type Pub struct {
 	Foreign bool `json:"foreign,omitempty"`
 	// Any: published through the static type any (Publish[any]).
 	Any bool `json:"any,omitempty"`
+	// EndErr (Foreign contexts): the error the context reports once it has
+	// ended: "" = context.Canceled, "deadline" = context.DeadlineExceeded,
+	// "custom" = an error of the application's own.  A context has ended
+	// when Done is closed and Err is non-nil, whatever the error is.
+	EndErr string `json:"end_err,omitempty"`
 }
+
+var errAppShutdown = errors.New("application shutting down")
 
 // foreignCtx is a context.Context implemented outside the context package.
 type foreignCtx struct {
@@ -63,12 +71,19 @@ type foreignCtx struct {
 	vals context.Context
 }
 
-func newForeignCtx(vals context.Context) (*foreignCtx, context.CancelFunc) {
+func newForeignCtx(vals context.Context, endErr string) (*foreignCtx, context.CancelFunc) {
 	c := &foreignCtx{done: make(chan struct{}), vals: vals}
 	return c, func() {
 		c.mu.Lock()
 		if c.err == nil {
-			c.err = context.Canceled
+			switch endErr {
+			case "deadline":
+				c.err = context.DeadlineExceeded
+			case "custom":
+				c.err = errAppShutdown
+			default:
+				c.err = context.Canceled
+			}
 			close(c.done)
 		}
 		c.mu.Unlock()
@@ -321,13 +336,20 @@ func Run(c *Case) *vkit.Outcome {
 			}
 			ps.nvals = p.NVals
 			if p.Foreign {
-				ps.ctx, ps.cancel = newForeignCtx(ctx)
+				ps.ctx, ps.cancel = newForeignCtx(ctx, p.EndErr)
 			} else {
 				ps.ctx, ps.cancel = context.WithCancel(ctx)
 			}
-			if p.Mode == "cancelled" {
+			if p.Mode == "expired" && !p.Foreign {
+				// ended by its deadline before the publish starts
+				var stop context.CancelFunc
+				ps.ctx, stop = context.WithDeadline(ctx, time.Unix(1, 0))
+				defer stop()
+			}
+			if p.Mode == "cancelled" || p.Mode == "expired" {
 				ps.cancel()
 				ps.cancelAt = 0
+				ps.mode = "cancelled"
 			}
 		}
 		mu.Lock()
